@@ -682,6 +682,39 @@ def _mutated(tree, name):
     return False
 
 
+_PURE_CONSUMERS = {"len", "sorted", "tuple", "frozenset", "set", "list", "dict", "sum", "min", "max", "any", "all", "enumerate", "zip", "iter", "reversed", "isinstance"}
+_READ_METHODS = {"get", "keys", "items", "values", "index", "count", "copy", "union", "intersection", "issubset", "issuperset", "join", "format", "startswith", "endswith", "lower", "upper"}
+
+
+def _escapes(tree, name):
+    """Can the object bound to module-level `name` be reached through another reference (stored, returned, passed on)?
+    A mutable display may only be propagated into its uses when it cannot: otherwise two users that share ONE object
+    would each be given a fresh copy and an aliasing defect would disappear from the analysed program."""
+    parents = {}
+    for n in ast.walk(tree):
+        for c in ast.iter_child_nodes(n):
+            parents[c] = n
+    for n in ast.walk(tree):
+        if not (isinstance(n, ast.Name) and n.id == name and isinstance(n.ctx, ast.Load)):
+            continue
+        p = parents.get(n)
+        if isinstance(p, ast.Subscript) and p.value is n and isinstance(p.ctx, ast.Load):
+            # a nested mutable element could still escape; accept only when the element is consumed in place
+            continue
+        if isinstance(p, ast.Compare) and n in p.comparators:
+            continue
+        if isinstance(p, (ast.For, ast.AsyncFor, ast.comprehension)) and p.iter is n:
+            continue
+        if isinstance(p, ast.Call) and isinstance(p.func, ast.Name) and p.func.id in _PURE_CONSUMERS and n in p.args:
+            continue
+        if isinstance(p, ast.Attribute) and p.value is n and p.attr in _READ_METHODS and isinstance(parents.get(p), ast.Call) and parents[p].func is p:
+            continue
+        if isinstance(p, ast.Starred):
+            continue
+        return True
+    return False
+
+
 def unknown_constants(repo, known):
     """module rel -> {name: value node} for module-level constants the table does not list."""
     out = {}
@@ -702,7 +735,8 @@ def unknown_constants(repo, known):
         for nm, v in m.globals.items():
             if nm in kg or counts.get(nm, 0) != 1 or not _const_ok(v):
                 continue
-            if not isinstance(v, (ast.Constant, ast.Tuple)) and not (isinstance(v, ast.Call) and getattr(v.func, 'id', '') in ('frozenset', 'tuple')) and _mutated(m.tree, nm):
+            immutable = isinstance(v, (ast.Constant, ast.Tuple, ast.Name, ast.Attribute, ast.BinOp, ast.UnaryOp)) or (isinstance(v, ast.Call) and getattr(v.func, 'id', '') in ('frozenset', 'tuple'))
+            if not immutable and (_mutated(m.tree, nm) or any(_escapes(m2.tree, nm) for m2 in repo.modules.values() if m2 is m or nm in m2.imports)):
                 continue
             cands[nm] = v
         if cands:
